@@ -71,6 +71,16 @@ type Task struct {
 	Pass        bool // uncontrolled: hooks return immediately
 	kill        bool
 	wake        chan struct{}
+	waitLock    *verifhook.RWMutex // instrumented lock this task is about to request (parked before the request)
+	waitWrite   bool
+	waitName    string
+}
+
+// lockInfo: who holds an instrumented lock (reported by the wrapper's notes).
+type lockInfo struct {
+	name    string
+	writer  *Task
+	readers map[*Task]int
 }
 
 // Sim is one simulated execution.
@@ -95,6 +105,10 @@ type Sim struct {
 	deadInst   map[int]bool
 	rewriting  map[int]bool // instance currently inside RewriteLog (engine.mut held)
 	writing    map[int]bool // instance whose write-commit mutex is held by some task
+	locks      map[*verifhook.RWMutex]*lockInfo
+	ParkLocks  map[string]bool // instrumented locks (by name) whose acquisitions are scheduling points in this run
+	Deadlock   string // description of a lock cycle among parked tasks, once one was seen
+	DeadlockOn string // the locks of that cycle ("conninfo+store")
 	// hooks for profiles
 	OnYieldOpp func(site string, t *Task) // fault/crash opportunity at selected yield sites (every mode)
 	OnNote     func(ev string, t *Task)
@@ -141,6 +155,7 @@ func NewSim() *Sim {
 		tasks:     map[uint64]*Task{},
 		deadInst:  map[int]bool{},
 		rewriting: map[int]bool{}, writing: map[int]bool{},
+		locks:     map[*verifhook.RWMutex]*lockInfo{},
 		copyOpen:  map[int]int{},
 		mutOpen:   map[int]int{},
 		Stats:     newStats(),
@@ -170,6 +185,8 @@ func (s *Sim) install() {
 		Fault:    s.hookFault,
 		FSEvent:  s.hookFS,
 		WrapFile: s.hookWrap,
+		LockYield: s.hookLockYield,
+		LockNote:  s.hookLockNote,
 		Evict: func(db int, key string, memUsed int64, limit uint64) {
 			if s.OnEvict != nil {
 				s.OnEvict(db, key, memUsed, limit)
@@ -244,7 +261,169 @@ func (s *Sim) reap() {
 	synctest.Wait()
 }
 
-func (s *Sim) park(site string, spin bool) {
+func (s *Sim) park(site string, spin bool) { s.parkEx(site, spin, false) }
+
+// holders returns the tasks other than t whose hold on m conflicts with the requested mode. s.mu held.
+func (s *Sim) holders(m *verifhook.RWMutex, t *Task, write bool) []*Task {
+	li := s.locks[m]
+	if li == nil {
+		return nil
+	}
+	var out []*Task
+	if li.writer != nil && li.writer != t && !li.writer.Done {
+		out = append(out, li.writer)
+	}
+	if write {
+		for r := range li.readers {
+			if r != t && !r.Done {
+				out = append(out, r)
+			}
+		}
+	}
+	sort.Slice(out, func(i, j int) bool { return out[i].ID < out[j].ID })
+	return out
+}
+
+// hookLockYield: scheduling point before an instrumented lock is requested. A task that would have to
+// wait for a lock held by a descheduled task (or by the task being stepped right now) is descheduled
+// itself, whatever the profile's site filter says: a goroutine blocked on a sync mutex is not durably
+// blocked, the bubble would never become quiescent.
+func (s *Sim) hookLockYield(m *verifhook.RWMutex, name string, write bool) {
+	site := "rlock." + name
+	if write {
+		site = "lock." + name
+	}
+	g := goid()
+	if g == s.ctrl || s.reaping.Load() {
+		s.parkEx(site, false, false)
+		return
+	}
+	s.mu.Lock()
+	t := s.taskFor(g)
+	must := false
+	for _, h := range s.holders(m, t, write) {
+		if h.Parked || h == s.current {
+			must = true
+		}
+	}
+	if name != "store" && !must && !s.ParkLocks[name] {
+		// profiles opt in to the scheduling points of the other locks (the store lock always was one)
+		s.mu.Unlock()
+		return
+	}
+	t.waitLock, t.waitWrite, t.waitName = m, write, name
+	s.mu.Unlock()
+	s.parkEx(site, false, must)
+	s.mu.Lock()
+	t.waitLock = nil
+	s.mu.Unlock()
+}
+
+func (s *Sim) hookLockNote(m *verifhook.RWMutex, write bool, acquired bool) {
+	g := goid()
+	if g == s.ctrl {
+		return
+	}
+	s.mu.Lock()
+	defer s.mu.Unlock()
+	t := s.taskFor(g)
+	li := s.locks[m]
+	if li == nil {
+		li = &lockInfo{readers: map[*Task]int{}}
+		s.locks[m] = li
+	}
+	switch {
+	case write && acquired:
+		li.writer = t
+	case write:
+		if li.writer == t {
+			li.writer = nil
+		}
+	case acquired:
+		li.readers[t]++
+	default:
+		if li.readers[t] <= 1 {
+			delete(li.readers, t)
+		} else {
+			li.readers[t]--
+		}
+	}
+}
+
+// findDeadlock looks for a cycle in the wait-for graph of the parked tasks: every task of the cycle is
+// parked in front of an instrumented lock that another task of the cycle holds. None of them can ever run
+// again, whatever else happens. s.mu held.
+func (s *Sim) findDeadlock() {
+	if s.Deadlock != "" {
+		return
+	}
+	var waiters []*Task
+	for _, t := range s.tasks {
+		if t.Parked && !t.Done && !s.deadInst[t.Inst] && t.waitLock != nil {
+			waiters = append(waiters, t)
+		}
+	}
+	if len(waiters) < 2 {
+		return
+	}
+	sort.Slice(waiters, func(i, j int) bool { return waiters[i].ID < waiters[j].ID })
+	isWaiter := map[*Task]bool{}
+	for _, t := range waiters {
+		isWaiter[t] = true
+	}
+	// colour DFS
+	state := map[*Task]int{}
+	var stack []*Task
+	var cycle []*Task
+	var dfs func(t *Task) bool
+	dfs = func(t *Task) bool {
+		state[t] = 1
+		stack = append(stack, t)
+		for _, h := range s.holders(t.waitLock, t, t.waitWrite) {
+			if !isWaiter[h] {
+				continue
+			}
+			if state[h] == 1 {
+				for i, x := range stack {
+					if x == h {
+						cycle = append([]*Task{}, stack[i:]...)
+					}
+				}
+				return true
+			}
+			if state[h] == 0 && dfs(h) {
+				return true
+			}
+		}
+		stack = stack[:len(stack)-1]
+		state[t] = 2
+		return false
+	}
+	for _, t := range waiters {
+		if state[t] == 0 && dfs(t) {
+			break
+		}
+	}
+	if len(cycle) == 0 {
+		return
+	}
+	names := map[string]bool{}
+	var parts []string
+	for i, t := range cycle {
+		nx := cycle[(i+1)%len(cycle)]
+		names[t.waitName] = true
+		parts = append(parts, fmt.Sprintf("task t%d (%s) waits for %s, held by t%d", t.ID, t.Site, t.waitName, nx.ID))
+	}
+	s.Deadlock = strings.Join(parts, "; ")
+	s.DeadlockOn = strings.Join(sortedKeys(names), "+")
+	lastDeadlock.Store(&deadlockRec{On: s.DeadlockOn, Detail: s.Deadlock})
+}
+
+type deadlockRec struct{ On, Detail string }
+
+var lastDeadlock atomic.Pointer[deadlockRec]
+
+func (s *Sim) parkEx(site string, spin bool, must bool) {
 	if s.reaping.Load() {
 		if g := goid(); g != s.ctrl {
 			runtime.Goexit()
@@ -265,10 +444,10 @@ func (s *Sim) park(site string, spin bool) {
 	}
 	// a task that would block on the write-commit mutex held by a parked task must park whatever the mode
 	// (a goroutine blocked on a sync.Mutex is not durably blocked: the bubble would never become quiescent)
-	mustPark := false
+	mustPark := must
 	if site == "lock.write" {
 		s.mu.Lock()
-		mustPark = s.writing[s.taskFor(g).Inst]
+		mustPark = mustPark || s.writing[s.taskFor(g).Inst]
 		s.mu.Unlock()
 	}
 	if s.passAll.Load() && !mustPark {
@@ -284,12 +463,6 @@ func (s *Sim) park(site string, spin bool) {
 	if site == "lock.store" {
 		buf := make([]byte, 4096)
 		stack := buf[:runtime.Stack(buf, false)]
-		if holdsConnInfoLock(stack) {
-			// SetConnectionInfo requests the store lock while holding the connection table's lock:
-			// parking here would block every other task on a sync.Mutex (not a durable block)
-			s.mu.Unlock()
-			return
-		}
 		// the re-measuring pass after a write command (memory accounting only, no effect on the dataset)
 		t.Bookkeeping = bytes.Contains(stack, []byte("reconcileMemory"))
 	}
@@ -457,7 +630,13 @@ func (s *Sim) ParkedTasks() []*Task {
 		if t.Site == "rewrite.lock" && s.rewriting[t.Inst] {
 			continue // would block on engine.mut held by a parked task
 		}
+		if t.waitLock != nil && len(s.holders(t.waitLock, t, t.waitWrite)) > 0 {
+			continue // would block on an instrumented lock held by another task
+		}
 		res = append(res, t)
+	}
+	if len(res) == 0 {
+		s.findDeadlock()
 	}
 	sort.Slice(res, func(i, j int) bool {
 		if res[i].BirthStep != res[j].BirthStep {
